@@ -966,7 +966,8 @@ namespace tainted_detail {
  * sandbox.
  */
 template<typename T, typename T_Sbx>
-class tainted : public tainted_base_impl<tainted, T, T_Sbx>
+class RLBOX_MAY_ALIAS tainted
+  : public tainted_base_impl<tainted, T, T_Sbx>
 {
   KEEP_CLASSES_FRIENDLY
   KEEP_CAST_FRIENDLY
@@ -1208,7 +1209,8 @@ inline tainted<T, T_Sbx> from_opaque(tainted_opaque<T, T_Sbx> val)
  * sandbox memory. Dereferencing a tainted pointer produces a tainted_volatile.
  */
 template<typename T, typename T_Sbx>
-class tainted_volatile : public tainted_base_impl<tainted_volatile, T, T_Sbx>
+class RLBOX_MAY_ALIAS tainted_volatile
+  : public tainted_base_impl<tainted_volatile, T, T_Sbx>
 {
   KEEP_CLASSES_FRIENDLY
   KEEP_CAST_FRIENDLY
